@@ -6,7 +6,7 @@ from vlib.core import hx
 MODULES = ['TLVerif.Props.C05']
 SOURCES = ["TLVerif.Codec.Json", "TLVerif.Codec.JsonPrim", "TLVerif.Codec.JsonText", "TLVerif.Codec.JsonTextLemmas", "TLVerif.Codec.JsonLemmas", "TLVerif.Codec.JsonAlt",
            "TLVerif.Codec.Ops.Json"]
-THEOREMS = ["TLVerif.Props.C05.json_valid", "TLVerif.Props.C05.json_numbers_wellformed", "TLVerif.Props.C05.json_roundtrip_fails_at_neg_zero", "TLVerif.Props.C05.json_roundtrip_fails_at_nan_payload", "TLVerif.Props.C05.prim_roundtrip_bool", "TLVerif.Props.C05.prim_roundtrip_string_utf8", "TLVerif.Props.C05.prim_string_non_utf8_is_base64", "TLVerif.Props.C05.prim_float32_specials", "TLVerif.Props.C05.prim_float64_specials", "TLVerif.Props.C05.prim_roundtrip_string", "TLVerif.Props.C05.prim_roundtrip_uint", "TLVerif.Props.C05.prim_roundtrip_int"]
+THEOREMS = ["TLVerif.Props.C05.json_valid", "TLVerif.Props.C05.json_numbers_wellformed", "TLVerif.Props.C05.json_roundtrip_fails_at_neg_zero", "TLVerif.Props.C05.json_roundtrip_fails_at_nan_payload", "TLVerif.Props.C05.prim_roundtrip_bool", "TLVerif.Props.C05.prim_roundtrip_string_utf8", "TLVerif.Props.C05.prim_string_non_utf8_is_base64", "TLVerif.Props.C05.prim_float32_specials", "TLVerif.Props.C05.prim_float64_specials", "TLVerif.Props.C05.prim_roundtrip_string", "TLVerif.Props.C05.prim_roundtrip_uint", "TLVerif.Props.C05.prim_roundtrip_int", "TLVerif.Props.C05.dict_key_non_utf8_has_no_json"]
 
 
 def run(c):
@@ -25,6 +25,12 @@ def run(c):
             if a == "panic":
                 skip.add(l.split(" ")[3])
                 c.oracle_fail(l, "WriteJSON panics (nil pointer) on the value ReadJSON produced from `{}`: JSON round trip impossible for this type", l)
+        rp = sorted({l for l in cj.replay_lines(c) if isinstance(l, str) and l.split(" ")[1:2] == [sc.sid]})
+        for l, a, _ in c.tie("replay:" + sc.sid, rp, sc.impl, model, prefix=pre):
+            if l.startswith("codec.xj "):
+                cj.oracle_c05(c, l, a)
+            elif a == "panic":
+                c.oracle_fail(l, "generated code panics", l)
         fixed = cj.fixed_lines(sc)
         exp = {l: (e, n) for l, e, n in fixed}
         for l, a, _ in c.tie("fixed:" + sc.sid, sorted(exp), sc.impl, model, prefix=pre):
